@@ -387,7 +387,16 @@ def run(tier, replay):
         for pf in prefixes(len(scen_threads[sc]), depth):
             jobs.append(("dfs_%s_%s" % (sc, "".join(map(str, pf))),
                          ["--scenario", sc, "--bound", str(bound), "--prefix", ",".join(map(str, pf))]))
+    # ---- the updater THREAD of api::Owner parked at each of its lock acquisitions while an owner-API call that
+    # takes the wallet mutex itself (close_wallet, ...) runs: the call has to return ("no interleaving deadlocks"
+    # for the lock pair wallet mutex / updater mutex)
+    lifecycle_replay = bool(replay) and json.load(open(replay)).get("scenario") == "lifecycle"
+    if lifecycle_replay:
+        jobs = []
+    if not replay or lifecycle_replay:
+        jobs.append(("lifecycle", ["--mode", "lifecycle", "--kmax", "14" if tier == "quick" else "45", "--park_wait", "6"]))
     results = run_jobs(binp, wd, jobs)
+    lifecycle_rows = [r for r in results.get("lifecycle", (0, [], ""))[1] if r.get("kind") == "lifecycle"]
 
     # ---- collect runs grouped by (scenario, threads); every job has its own base (header)
     headers, runs = [], []
@@ -503,6 +512,16 @@ def run(tier, replay):
         else:
             V.violation({"property": PROP, "kind": "oracle", "what": "non-serializable schedule of shape %s, "
                          "which is not recorded as an open finding" % kid})
+    lifecycle_stuck = [r for r in lifecycle_rows if not r["returned"]]
+    for r in lifecycle_stuck[:2]:
+        V.violation({"property": PROP, "kind": "deadlock", "scenario": "lifecycle",
+                     "what": "api::Owner::%s, called while the updater thread (start_updater) stood before its wallet-lock "
+                             "acquisition number %d and released 150 ms later, never returned: the two threads hold the wallet "
+                             "mutex and the updater mutex in opposite orders" % (r["op"], r["k"]),
+                     "op": r["op"], "k": r["k"], "updater_parked": r["parked"],
+                     "replay_cmd": "./check C20 --replay <this file>"})
+    if not replay and not lifecycle_rows:
+        infra.append("lifecycle job produced no rows: %s" % results.get("lifecycle", (0, [], ""))[2][-300:])
     for d in deadlocks[:3]:
         V.violation({"property": PROP, "kind": "deadlock", "what": "watchdog: a thread never reached its next "
                      "lock acquisition / end (deadlock or hang)", "scenario": d["scenario"],
@@ -553,6 +572,11 @@ def run(tier, replay):
         "divergences": len(divergences),
         "oracle_failures": len(oracle_fail),
         "deadlocks": len(deadlocks),
+        "lifecycle": {"calls": len(lifecycle_rows), "updater_parked": sum(1 for r in lifecycle_rows if r["parked"]),
+                      "returned": sum(1 for r in lifecycle_rows if r["returned"]),
+                      "ops": sorted({r["op"] for r in lifecycle_rows}),
+                      "what": "api::Owner::start_updater thread parked before its k-th wallet_lock! acquisition; "
+                              "owner-API call from another thread; the call must return"},
         "known_finding_hits": dict(known_hits),
         "source_scan": scan_info,
     })
